@@ -84,6 +84,27 @@ CLAIMED["C16"] = dict(
    technique="contract-based deductive verification: regular-language preconditions at call sites, representation invariant of the literal collector over a default method contract, ghost attribute for the code of a generator output; replay = real parser/generator/HasChanged on templates and edit pairs",
    design="5.C16")
 
+CLAIMED["C20"] = dict(
+   level="other",
+   text="Partial. Proved on Handler.modifyResponse over a ghost model of the response (in(r.Body) = bytes still to be read, headers(r.Header) = canonical key -> first value): (1) responses carrying the skip marker, responses whose Content-Type does not start with text/html and responses in a Content-Encoding other than '' / gzip / br leave exactly as they came - same body stream, nothing read from it, same ContentLength, same headers; (2) whenever the body is replaced, ContentLength and the Content-Length header are the number of bytes of the new body and the Content-Encoding header is unchanged (the body was produced by the writer selected by that same header value); (3) an error return leaves headers and ContentLength alone; (4) setShouldSkipResponseModificationHeader marks exactly the responses to HX-Request: true requests; (5) reloadScript carries the nonce attribute exactly when the nonce is non-empty, with that value; insertScriptTagIntoBody returns its input on every failure; parseNonce has no index / slice panic. The closures selected by the encoding switch are executed under a case split; readers and writers wrapped by gzip / brotli are tracked as wrappers of the stream they were created on. One genuine defect found (unsupported encodings were parsed and rewritten), replayed and repaired. NOT decided by this technique: that parse+render leaves 'the same document', that gzip / brotli decode(encode(x)) == x, that the script lands in the first body element, which nonce parseNonce picks (only its safety).",
+   note="govc + solvers; assumed / modelled: net/http.Header as a map from canonical key to first value (Get, Set, Del, Add; any other Header method havocs the view), io.ReadAll, io.NopCloser, bytes.Buffer, gzip / brotli NewReader / NewWriter / Write / Close as opaque transformers tied to the wrapped stream, golang.org/x/net/html Parse / Render and htmlfind as uninterpreted functions; httputil.ReverseProxy calls modifyResponse with non-nil Request, URL, Header and Body (precondition)",
+   technique="contract-based deductive verification with ghost streams and a ghost header view, closure calls executed under case split; bounded replay on the real handler (pass-through, 3 encodings x 4 CSP shapes, HTMX marker)",
+   design="5.C20")
+
+CLAIMED["C06"] = dict(
+   level="other",
+   text="Partial (position faithfulness of the expression-cutting layer only). Proved for all inputs and offsets, over a model of github.com/a-h/parse.Input read off its source: parseGo, parseGoSliceArgs and parseGoFuncDecl return an expression that is located - its range lies inside the input and is ordered, From / To carry the line and column of their byte offsets (number of line feeds before the offset, bytes since the last one), the input holds the expression text at the start of the range and To - From equals the length of the text - they advance the input exactly to the end of the expression and leave it untouched on error; NewExpression / NewRange copy the positions field by field (verified inline); goexpression.extract never returns an end beyond the text it was given nor a start beyond the end (the clamp that the callers' src[start:end] relies on), whatever go/parser reported. NOT decided by this technique: termination and absence of panics of the combinator parser on arbitrary bytes, the lower bound 0 <= start of the extractors (go/parser token positions), the other places that build expressions and name ranges (string / attribute / css / script parsers): for those the bounded replay oracle (every expression of the repository's and three crafted templates is located) is the only evidence, labelled bounded.",
+   note="govc + solvers; assumed: the a-h/parse.Input model (Peek, Take, Index, Position, PositionAt), the extractor results 0 <= start <= end <= len(content) when err == nil (upper part proved on extract), goexpression.SliceArgs / Func return a prefix of their input, parse.Error is non-nil; inputs shorter than 2 GiB; spec functions nlCount / lineStart as in C07",
+   technique="contract-based deductive verification of the three cutting functions against a library model; bounded replay = the real parser on templates with every Expression checked against the input bytes",
+   design="5.C06")
+
+CLAIMED["C14"] = dict(
+   level="other",
+   text="Partial (confinement and lock discipline; no interleaving semantics). Every function on the render path that is under contract for C10 (runtime buffer / pool / WriteString, templ's hand-written components, registry, handlers - 260 functions including every closure of the regenerated corpus) is executed symbolically once more with one extra kind of obligation: each read or write of a package-level variable that is ever assigned after initialisation must happen while the mutex declared for it (`guarded v by mu`) is held, and a variable without a declared guard must not be touched at all. Result on the current tree: the only such state is the watch-mode cache of text files (runtime and its deprecated copy in package templ); all its accesses are inside getWatchedStrings / cacheStrings with watchStateMutex held (Lock at entry, deferred Unlock on every return, cacheStrings only called with the lock held), no lock is acquired twice or released unheld. Variables never assigned after initialisation (tables, developmentMode, compiled regexps) are immutable; sync.Pool and sync.Mutex are safe for concurrent use by their documentation. From confinement, 'each goroutine gets the bytes it would get alone' and data-race freedom follow only by the Go memory model argument (not mechanised): a render touches its own context value, its own writer and a buffer it owns between Get and Put (C10). Replay: the real runtime under the Go race detector.",
+   note="govc + solvers; no schedules are explored; assumed: sync.Pool / sync.Mutex / context.Context concurrency contracts, read-only use of never-assigned package variables, user expressions and components outside the claim; reads through pointers stored in package-level variables are not followed (none on this path)",
+   technique="contract-based deductive verification of a confinement discipline (ghost lock state, guarded-variable obligations over the borrowed C10 contracts); replay = go test -race on 8 goroutines x 200 renders",
+   design="5.C14")
+
 NA = {
  "C02": "compiler correctness: needs a formal semantics of templ and of the emitted Go subset; no per-function contract can state 'denotes' without restating the generator (locally expressible parts are claimed under C01/C03/C04/C10/C16/C07)",
  "C08": "whole-formatter semantic preservation needs the same two semantics plus go/format; not expressible as function contracts",
